@@ -27,8 +27,8 @@ use crate::world::{self, EndpointCfg, Slot};
 
 /// Upper bounds on the bytes of each direction of the reference conversation (1935 and 680 bytes
 /// in the fault-free run); cases beyond the actual length inject nothing and count as trivial
-pub const MAX_A2B: u64 = 2000;
-pub const MAX_B2A: u64 = 720;
+pub const MAX_A2B: u64 = 2200;
+pub const MAX_B2A: u64 = 1200;
 pub const CASES: u64 = 3 * (MAX_A2B + 1 + MAX_B2A + 1);
 
 #[derive(Clone, Debug)]
@@ -68,10 +68,25 @@ fn big(uid: u64) -> msgs::Msg {
     m
 }
 
-async fn listener_session(k: usize, mut s: fe2o3_amqp::acceptor::ListenerSessionHandle, ops: Ops, net: crate::net::NetHandle) {
+#[derive(Clone, Copy, Debug)]
+struct Knobs {
+    /// credit the listener's receiver grants (None = the acceptor's default)
+    rcv_credit: Option<u32>,
+    /// the listener sessions' incoming window (None = default)
+    l_incoming_window: Option<u32>,
+}
+
+async fn listener_session(k: usize, mut s: fe2o3_amqp::acceptor::ListenerSessionHandle, ops: Ops, net: crate::net::NetHandle, knobs: Knobs) {
     let la = LinkAcceptor::new();
     match op(&ops, &net, "listener", &format!("accept link on session {}", k), la.accept(&mut s)).await {
         Some(Ok(LinkEndpoint::Receiver(mut r))) => {
+            if let Some(c) = knobs.rcv_credit {
+                // little credit: the client's sends wait for it, so a cut can find them blocked there
+                r.set_credit_mode(CreditMode::Auto(c));
+                if op(&ops, &net, "listener", "set_credit", r.set_credit(c)).await.is_none() {
+                    return;
+                }
+            }
             for i in 0..5 {
                 match op(&ops, &net, "listener", &format!("recv {}", i), r.recv::<Body<Value>>()).await {
                     Some(Ok(d)) => {
@@ -103,8 +118,11 @@ async fn listener_session(k: usize, mut s: fe2o3_amqp::acceptor::ListenerSession
     let _ = op(&ops, &net, "listener", &format!("session {} on_end", k), s.on_end()).await;
 }
 
-async fn listener_side(mut listener: fe2o3_amqp::acceptor::ListenerConnectionHandle, ops: Ops, net: crate::net::NetHandle, done: Slot<()>) {
-    let acc = SessionAcceptor::new();
+async fn listener_side(mut listener: fe2o3_amqp::acceptor::ListenerConnectionHandle, ops: Ops, net: crate::net::NetHandle, done: Slot<()>, knobs: Knobs) {
+    let acc = match knobs.l_incoming_window {
+        Some(w) => SessionAcceptor::builder().incoming_window(w).build(),
+        None => SessionAcceptor::new(),
+    };
     let running = Rc::new(RefCell::new(0usize));
     let all_done: Slot<()> = Slot::new();
     for k in 0..2 {
@@ -113,7 +131,7 @@ async fn listener_side(mut listener: fe2o3_amqp::acceptor::ListenerConnectionHan
                 *running.borrow_mut() += 1;
                 let (ops2, net2, run2, ad2) = (ops.clone(), net.clone(), running.clone(), all_done.clone());
                 sim::spawn("listener-session", async move {
-                    listener_session(k, s, ops2, net2).await;
+                    listener_session(k, s, ops2, net2, knobs).await;
                     *run2.borrow_mut() -= 1;
                     if *run2.borrow() == 0 {
                         ad2.put(());
@@ -146,11 +164,13 @@ pub async fn run_cut() {
     let mut lcfg = EndpointCfg::default_cfg();
     ccfg.max_frame_size = 512;
     lcfg.max_frame_size = 512;
-    // the schedule and the network behaviour vary with the seed; the conversation is fixed
+    // the schedule, the network behaviour and two flow-control knobs vary with the seed; the
+    // conversation is fixed
+    let knobs = Knobs { rcv_credit: pick(&[None, None, Some(1u32)]), l_incoming_window: pick(&[None, None, Some(2u32)]) };
     let (mut nab, mut nba, nd) = world::draw_net(false);
     nab.stall_den = 0;
     nba.stall_den = 0;
-    sim::set_config(format!("variant=cut dir={} offset={} kind={:?} {}", if dir == 0 { "a2b" } else { "b2a" }, offset, kind, nd));
+    sim::set_config(format!("variant=cut dir={} offset={} kind={:?} {:?} {}", if dir == 0 { "a2b" } else { "b2a" }, offset, kind, knobs, nd));
     sim::set_panic_is_violation(true);
     let (cs, ls, net) = SimStream::pair("client", "listener", nab, nba);
     {
@@ -167,7 +187,7 @@ pub async fn run_cut() {
             sim::in_group(2, async move {
                 let acceptor = world::listener_acceptor(&lcfg2);
                 match op(&ops2, &net2, "listener", "accept connection", acceptor.accept(ls)).await {
-                    Some(Ok(l)) => listener_side(l, ops2, net2, ld).await,
+                    Some(Ok(l)) => listener_side(l, ops2, net2, ld, knobs).await,
                     _ => ld.put(()),
                 }
             }),
